@@ -44,6 +44,8 @@ const (
 	findingBackwardsUnvalidated = "C09-backwards-stores-unvalidated-block"
 	// sequential verification keeps the target it got from a primary that is demoted to witness during the same call
 	findingSelfConfirmed = "C09-demoted-primary-confirms-own-header"
+	// backwards verification starts from the lowest trusted header without asking whether it has expired
+	findingBackwardsExpired = "C09-backwards-from-expired-header"
 )
 
 type apiCall struct {
@@ -240,6 +242,9 @@ func runEpisode(t *rapid.T, w *world, label string, hk *hook) epResult {
 	lastNow := now
 	now = calls[0].now
 	rf := newRef(w.chainID, period, drift, num, den)
+	if lib.IsKnown(findingBackwardsExpired) {
+		rf.backFromExpired = true
+	}
 
 	// ---- providers
 	tmpl := rapid.SampledFrom([]string{"honest", "benign", "primary-attack", "primary-attack", "primary-attack", "witness-attack", "witness-attack", "free"}).Draw(t, "tmpl")
@@ -315,6 +320,13 @@ func runEpisode(t *rapid.T, w *world, label string, hk *hook) epResult {
 			cls.add("fork-commit-layout:" + fs.layout)
 			forkNotes[len(forkNotes)-1] += fmt.Sprintf(" layout=%s slots=%v", fs.layout, fs.slots)
 		}
+		if fs.relabelNil {
+			hostile[lbl] = true // the commit carries signatures that are invalid for what their slot claims: acceptance is never required
+		}
+		if fs.relabelNil || fs.emptyPSH {
+			cls.add(fmt.Sprintf("fork-commit-shape:relabelled-nil=%v,empty-part-set-header=%v", fs.relabelNil, fs.emptyPSH))
+			forkNotes[len(forkNotes)-1] += fmt.Sprintf(" relabelNil=%v emptyPSH=%v", fs.relabelNil, fs.emptyPSH)
+		}
 		if fs.nilRest {
 			cls.add("fork-nil-precommits-of-the-rest")
 			if fs.genuineFirst && (fs.coal == "none" || fs.coal == "low" || fs.coal == "below-level") {
@@ -369,7 +381,7 @@ func runEpisode(t *rapid.T, w *world, label string, hk *hook) epResult {
 		fs := w.genFork(t, "pforkBelow", j, r-1, w.g[j].ValidatorSet, num, den, now, drift, j-1)
 		fs.timeMode = "genuine"
 		fs.salt = label + "below"
-		hostile["pfork"] = fs.layout != ""
+		hostile["pfork"] = fs.layout != "" || fs.relabelNil
 		forkNotes = append(forkNotes, fmt.Sprintf("pfork: heights %d..%d (below the root) genuineFirst=%v coalition=%s nilRest=%v", fs.j, fs.m, fs.genuineFirst, fs.coal, fs.nilRest))
 		pblocks, platest = overlay(w.g, w.build(fs, gview))
 		calls[0].height = rapid.Int64Range(1, r-1).Draw(t, "pfork.below.call")
@@ -734,6 +746,9 @@ func runEpisode(t *rapid.T, w *world, label string, hk *hook) epResult {
 						aborted = true
 						return
 					}
+					if b.Height < firstBefore && rf.expired(before[firstBefore], c.now) {
+						why += fmt.Sprintf("\n  backward steps: the lowest trusted header %d is outside the trusting period at the time of the call", firstBefore)
+					}
 					t.Fatalf("SOUNDNESS: header %d/%X (genuine=%v) is in the trusted store but no chain of valid verification steps leads to it from the trusted headers %v over the %d light blocks the providers returned%s\n%s",
 						b.Height, b.Hash(), isGenuine(b), heightsOf(tl), len(U), why, desc)
 				}
@@ -819,6 +834,10 @@ func runEpisode(t *rapid.T, w *world, label string, hk *hook) epResult {
 					cls.add("stored:backwards")
 					if rf.expired(before[firstBefore], c.now) {
 						cls.add("stored:backwards-from-expired")
+						if lib.IsKnown(findingBackwardsExpired) {
+							lib.ObservedKnown(findingBackwardsExpired)
+							lib.ExcludedByKnown(findingBackwardsExpired)
+						}
 					}
 					continue
 				}
@@ -989,7 +1008,7 @@ func runEpisode(t *rapid.T, w *world, label string, hk *hook) epResult {
 						known = false
 					}
 				case h < firstBefore:
-					want = true
+					want = rf.backFromExpired || !rf.expired(before[firstBefore], c.now)
 				default:
 					var from *types.LightBlock
 					for x := h - 1; x >= 1; x-- {
